@@ -99,17 +99,10 @@ impl Interpreter {
             OpCodes::OP_15 => state.stack.push_number(15)?,
             OpCodes::OP_16 => state.stack.push_number(16)?,
             OpCodes::OP_NOP => {}
-            OpCodes::OP_IF => {
-                // NOP - handled by ScriptBit interpreter
-            }
-            OpCodes::OP_NOTIF => {
-                // NOP - handled by ScriptBit interpreter
-            }
-            OpCodes::OP_ELSE => {
-                // NOP - handled by ScriptBit interpreter
-            }
-            OpCodes::OP_ENDIF => {
-                // NOP - handled by ScriptBit interpreter
+            OpCodes::OP_IF | OpCodes::OP_NOTIF | OpCodes::OP_ELSE | OpCodes::OP_ENDIF => {
+                // Well formed conditionals are handled by the ScriptBit interpreter (ScriptBit::If).
+                // One of these opcodes showing up on its own is an OP_ELSE/OP_ENDIF without a matching OP_IF.
+                return Err(InterpreterError::InvalidStackOperation("Unbalanced conditional"));
             }
             OpCodes::OP_VERIFY => {
                 let predicate = state.stack.pop_bool()?;
